@@ -346,6 +346,24 @@ CLAIMED = {
         "using one prints as blanks); per-environment constant dictionaries are exercised in C01/C13, not here; unit-conversion overflow "
         "of binary64 for exponents up to 21 between extreme prefixes is discarded and counted.",
         "DESIGN.md section 6 / C19"),
+    "C20": (
+        "Coq proof that the models reject each invalid class (unknown / doubly-aliased keys for any schema, wrong dimension, positions outside any grid, no aliasing of accepted writes) + fault-injection correspondence in which the Coq models decide which inputs are invalid",
+        "Theorems (Props/C20.v, closed under the global context): for any schema and dictionary an unknown key or a field given under two "
+        "synonyms makes the reader fail; a quantity whose dimension differs from the field's is rejected whatever its value and units (also "
+        "for state writes); a linear index outside [0, size) and a coordinate triple outside the box are rejected for every grid; an accepted "
+        "write leaves every entry other than the addressed (species, cell) unchanged and distinct pairs are distinct entries; unsupported "
+        "symbols, out-of-grammar unit text and the coarse-graining map rules by computation on examples. Tied to the code on every run: "
+        "1500 (40000) random valid models with a fault of one of 14 classes injected at a random place (30 % controls without fault): "
+        "unknown key / second alias / missing mandatory key at any nesting level of a script dictionary; wrong dimension in every "
+        "dimensioned field; unsupported base symbol; malformed unit text; non-positive grid size; environment map of the wrong length or "
+        "naming an environment outside [0, nenv); unknown boundary condition / axis / sampling policy / processing mode; empty environment "
+        "list and 'default'; positions outside grids and graphs through six accessors; unknown species; invalid coarse-graining maps. "
+        "Which inputs are invalid is computed by `invalid` (Model/AcceptC20.v) from the models of C05/C06/C12/C15/C16/C18; the package must "
+        "raise exactly on those and leave state and chemostat map untouched.",
+        "Trusted: Coq kernel + VM; `invalid` for the classes that are plain range / membership tests (sizes, environment maps and names, "
+        "choices, graph positions, species references) is the specification itself, read off the statement; sampled injection sites; "
+        "get_species_index returning None (documented) counts as a rejection; the Python harness.",
+        "DESIGN.md section 6 / C20"),
 }
 
 NOT_YET = "check not built yet in this round (work in progress; see DESIGN.md section 9 for the order of work)"
